@@ -52,6 +52,12 @@ PROBES = ["crash_in_header", "crash_in_key", "crash_in_value", "crash_on_boundar
 RECOVERIES = ["r", "a", "stale_r", "stale_a", "coll_r", "coll_w", "stale_coll_w", "a_crash2"]
 
 
+def pre_checks(tier):
+    from ..conformance import real_lock
+
+    return {"conformance_lock": real_lock.run()}
+
+
 def budget(tier):
     if tier == "quick":
         return {"runs": 960, "chunk": 6, "wall_cap": 240.0, "det_sample": 6}
